@@ -106,11 +106,11 @@ func (m *Manifest) UnmarshalJSON(data []byte) error {
 }
 
 // checkRepeatedMembers returns an error if some object of the given JSON
-// document has two members with the same name or with names that differ in
-// the letter case only: decoders pick one of them (the last one, and
-// encoding/json matches names case-insensitively), another implementation can
-// pick the other one. The free-form "extra" and "features" members of the
-// manifest (top == true) are not looked into.
+// document has two members with the same name: decoders pick one of them,
+// another implementation can pick the other one. Names that differ in the
+// letter case are different names (members are read by their exact names, the
+// others are unknown ones). The free-form "extra" and "features" members of
+// the manifest (top == true) are not looked into.
 func checkRepeatedMembers(data []byte, top bool) error {
 	dec := json.NewDecoder(bytes.NewReader(data))
 	dec.UseNumber()
@@ -129,11 +129,10 @@ func checkRepeatedMembers(data []byte, top bool) error {
 					return err
 				}
 				name, _ := t.(string)
-				folded := strings.ToLower(name)
-				if _, ok := seen[folded]; ok {
+				if _, ok := seen[name]; ok {
 					return fmt.Errorf("repeated member '%s'", name)
 				}
-				seen[folded] = struct{}{}
+				seen[name] = struct{}{}
 				if top && (name == "extra" || name == "features") {
 					var skipped json.RawMessage
 					err = dec.Decode(&skipped)
